@@ -902,3 +902,29 @@ impl FixtureDatabase {
 }
 
 // Undeclared fixtures scanning methods are in undeclared.rs
+
+// Verification hooks: public wrappers for crate-private entry points, compiled
+// only with `--cfg pytest_language_server_verif`.
+#[cfg(pytest_language_server_verif)]
+impl FixtureDatabase {
+    /// The workspace scan's no-cleanup analysis path.
+    pub fn verif_analyze_file_fresh(&self, file_path: PathBuf, content: &str) {
+        self.analyze_file_fresh(file_path, content);
+    }
+
+    pub fn verif_build_line_index(content: &str) -> Vec<usize> {
+        Self::build_line_index(content)
+    }
+
+    pub fn verif_get_line_from_offset(&self, offset: usize, line_index: &[usize]) -> usize {
+        self.get_line_from_offset(offset, line_index)
+    }
+
+    pub fn verif_get_char_position_from_offset(
+        &self,
+        offset: usize,
+        line_index: &[usize],
+    ) -> usize {
+        self.get_char_position_from_offset(offset, line_index)
+    }
+}
